@@ -397,6 +397,9 @@ class ObjectTemplate(base.HyperValue, utils.Formattable):
       return (False, None)  # pytype: disable=bad-return-type
     except KeyError:
       return (False, None)  # pytype: disable=bad-return-type
+    except NotImplementedError:
+      # A custom hyper value that cannot encode does not match the value.
+      return (False, None)  # pytype: disable=bad-return-type
 
   def __eq__(self, other):
     """Operator ==."""
